@@ -1371,7 +1371,14 @@ void vs_exec(binson_parser *p, const uint8_t *buf, size_t n, vsctx *cx, const vs
     case S_LEAVE_OBJ: ret = binson_parser_leave_object(p); if (ret) { if (cx->sp && cx->stack[cx->sp - 1] == K_OBJ) cx->sp--; else cx->sp = 0; } break;
     case S_LEAVE_ARR: ret = binson_parser_leave_array(p); if (ret) { if (cx->sp && cx->stack[cx->sp - 1] == K_ARR) cx->sp--; else cx->sp = 0; } break;
     case S_GET_TYPE: vb_u8(t, (uint8_t)binson_parser_get_type(p)); break;
-    case S_GET_NAME: tr_span(t, buf, n, binson_parser_get_name(p)); break;
+    case S_GET_NAME: {
+        /* the error field and a neighbouring getter are read before and after in the same function: get_name may set ERROR_STATE */
+        uint8_t e0 = (uint8_t)p->error_flags; int64_t i0 = binson_parser_get_integer(p);
+        bbuf *nm = binson_parser_get_name(p);
+        uint8_t e1 = (uint8_t)p->error_flags; int64_t i1 = binson_parser_get_integer(p);
+        vb_u8(t, e0); vb_put(t, &i0, 8); tr_span(t, buf, n, nm); vb_u8(t, e1); vb_put(t, &i1, 8);
+        break;
+    }
     case S_GET_STRING: tr_span(t, buf, n, binson_parser_get_string_bbuf(p)); break;
     case S_GET_BYTES: tr_span(t, buf, n, binson_parser_get_bytes_bbuf(p)); break;
     case S_GET_RAW: { bbuf raw; raw.bptr = NULL; raw.bsize = 0; ret = binson_parser_get_raw(p, &raw); if (ret) tr_span(t, buf, n, &raw); break; }
@@ -1397,6 +1404,13 @@ void vs_exec(binson_parser *p, const uint8_t *buf, size_t n, vsctx *cx, const vs
 #endif
     case S_FIELD: case S_FIELD_LEN: case S_FIELD_ENSURE: case S_FIELD_ENSURE_LEN:
         if (!vs_lookups_allowed(p, cx)) { skipped = 1; break; }
+        if (o->cap % 37 == 5) {            /* documented NULL name: field() returns false, field_with_length() sets ERROR_NULL */
+            if (o->op == S_FIELD) ret = binson_parser_field(p, NULL);
+            else if (o->op == S_FIELD_LEN) ret = binson_parser_field_with_length(p, NULL, o->nlen);
+            else if (o->op == S_FIELD_ENSURE) ret = binson_parser_field_ensure(p, NULL, (binson_type)o->type);
+            else ret = binson_parser_field_ensure_with_length(p, NULL, o->nlen, (binson_type)o->type);
+            break;
+        }
         if (o->op == S_FIELD) ret = binson_parser_field(p, nm);
         else if (o->op == S_FIELD_LEN) ret = binson_parser_field_with_length(p, nm, o->nlen);
         else if (o->op == S_FIELD_ENSURE) ret = binson_parser_field_ensure(p, nm, (binson_type)o->type);
